@@ -51,6 +51,7 @@ def gen_set(rng, tag, scc=False):
     if rng.random() < 0.1:
         n = rng.randrange(20, 60)           # a long document
     caps = []
+    float_times = rng.random() < 0.25
     t = rng.choice([0, 40000, 1000000, 10 * 10 ** 6])
     if scc:
         t += 5 * 10 ** 6
@@ -90,7 +91,10 @@ def gen_set(rng, tag, scc=False):
                                          ([['b'], ['t', tail]] if tail else [])
                 if all(_marker_free(x) for x in lines):
                     break
-        caps.append({'start': t, 'end': t + dur, 'nodes': nodes, 'style': None, 'layout': None})
+        a, b = t, t + dur
+        if float_times:
+            a, b = a * 1001 / 1000.0, b * 1001 / 1000.0       # the float instants an SCC read or a rate skew produces
+        caps.append({'start': a, 'end': b, 'nodes': nodes, 'style': None, 'layout': None})
         t += dur + rng.choice([0, 1000000, 5000000] if not scc else [6000000, 10000000])
     return {'langs': [{'lang': 'en-US', 'layout': None, 'captions': caps}], 'styles': None, 'layout': None}
 
